@@ -37,6 +37,8 @@ class C11Disk(Scenario):
             "universe": rng.choice((4, 8, 16, 40)),
             "fault_free": rng.chance(1, 6),
             "real_kill_every": 4 if tier == "thorough" else 25,
+            # crash-point granularity: library source line, or (a share of the runs) single byte-code instruction
+            "instr": rng.chance(1, 4) if tier == "thorough" else rng.chance(1, 30),
             "steps": rng.between(4, self.max_steps),
         }
 
@@ -85,7 +87,10 @@ class C11Disk(Scenario):
         self._unraisable = sys.unraisablehook
         sys.unraisablehook = lambda *a, **k: None
         self.ls = seams.line_seam()
+        self.ls.set_granularity("instr" if cfg.get("instr") else "line")
         self.ls.enable()
+        if cfg.get("instr"):
+            self.ctx.probe("instruction_level_run")
         self.scr = seams.Scratch(self.ctx.scratch)
         self.scr.chdir(cfg["cwd"])
         self.hf = seams.make_list_hash(cfg["hash"], cfg["hseed"], cfg["squeeze"])
@@ -97,7 +102,7 @@ class C11Disk(Scenario):
         self.done = []  # key indices of completed additions (with repetitions)
         self.count = 0  # number of completed additions == expected recorded count
         self.twin = self.new_twin()
-        self.last_add_lines = 8 + 4 * self.k
+        self.last_add_lines = (8 + 4 * self.k) * (6 if cfg.get("instr") else 1)
         self.kills = 0
         self.check_after_return("create", None)
         if not cfg["fault_free"]:
@@ -122,6 +127,7 @@ class C11Disk(Scenario):
             import sys
 
             seams.line_seam().disable()
+            seams.line_seam().set_granularity("line")
             gc.collect()
             if getattr(self, "_unraisable", None) is not None:
                 sys.unraisablehook = self._unraisable
@@ -202,7 +208,7 @@ class C11Disk(Scenario):
 
         def hook(i, code, line):
             img = common.read_fresh(path)
-            loc = f"{os.path.basename(code.co_filename)}:{line}"
+            loc = f"{os.path.basename(code.co_filename)}:{line}" if line >= 0 else f"{os.path.basename(code.co_filename)}:{code.co_name}+{-line - 1}"
             self.ctx.state(phase, loc)
             if img != last[0]:
                 images.append((i, loc, img))
@@ -482,7 +488,9 @@ SPEC = PropSpec(
     scenarios=[(1, C11Disk)],
     runs={"quick": 6000, "thorough": 200000},
     level="fault_enumeration",
-    rule=("histories (create, add, close, drop-without-close, reopen with 4 path spellings, export onto a stale "
+    rule=("crash-point granularity is a library source line; a share of the runs (1 in 4 thorough, 1 in 30 quick) uses "
+          "single byte-code instructions instead (sys.monitoring INSTRUCTION events).  "
+          "histories (create, add, close, drop-without-close, reopen with 4 path spellings, export onto a stale "
           "destination, chdir among 3 directories, kill+restart) are sampled from the seed; inside every add / close / "
           "drop / export of a history EVERY library line event is a crash point: the file is read through a fresh "
           "descriptor and must be a well-formed export of the right geometry, contain every completed addition, and "
